@@ -246,6 +246,7 @@ func init() {
 		RuleK7(r, c)
 		RuleK8(r, c)
 		RuleK11(r, c)
+		RuleK14(r, c)
 	}
 }
 
